@@ -3,7 +3,7 @@
 # exit 0 only if every run exited 0. Keeps the last seed-1 evidence (runs seed 1 last).
 T=${1:-quick}; shift
 SEEDS="${@:-1}"
-cd /verif
+cd "$(dirname "$(readlink -f "$0")")/.."
 rc=0
 for S in $SEEDS; do
   for ID in C01 C02 C03 C04 C05 C06 C07 C08 C09 C10 C11 C12 C13 C14 C15 C16 C17 C18 C19 C20; do
